@@ -189,6 +189,7 @@ def run(rep, tier):
     rn = F.one(APP + "Run")
     rep.analysed(rn)
     check_run(rep, rn)
+    check_ring_size(rep, rn)
 
     # ================================================================ R5.8 wrappers
     for q, prim, arg in ((MUTEX + "Lock", "pthread_mutex_lock", "mutexVar_"), (MUTEX + "Unlock", "pthread_mutex_unlock", "mutexVar_"),
@@ -754,3 +755,44 @@ def root_name(n):
         else:
             return None
     return None
+
+
+def check_ring_size(rep, rn):
+    """the hand-over rings are indexed modulo nthreads_ (ring_of): exactly nthreads_ workers (ids 0 .. nthreads_-1) must exist in threaded runs,
+    whatever the frame budget - a shorter ring sends the token of the last worker to a worker and mutex that do not exist"""
+    fo = Fold(rn, inline="internal", record_calls=r"::push_back$|CsgApplication::Worker::setId$|::setId$").run()
+    loops = {l["lid"]: l for l in getattr(fo, "loops", [])}
+
+    def lid_of(e):
+        ls = [g_[0][1] for g_ in e["guards"] if isinstance(g_[0], tuple) and g_[0] and g_[0][0] == "loop"]
+        return ls[-1] if ls else None
+    forks = [e for e in fo.events if e["kind"] == "call" and e["callee"].endswith("push_back") and str(e["obj"]) == "myWorkers_" and "ForkWorker" in str(e["args"][0])]
+    ids = [e for e in fo.events if e["kind"] == "call" and e["callee"].endswith("setId") and "myWorkers_" in str(e["obj"])]
+    first = [e for e in forks if lid_of(e) is None]
+    rest = [e for e in forks if lid_of(e) is not None]
+    ok, why = len(first) == 1 and len(rest) == 1, "expected worker 0 created once and the other workers in one loop, found %d + %d creations" % (len(first), len(rest))
+    if ok:
+        l = loops[lid_of(rest[0])]
+        keys = list(l["syms"])
+        ok, why = len(keys) == 1, "the worker-creation loop carries %d variables" % len(keys)
+    if ok:
+        k_ = keys[0]
+        j = l["syms"][k_]
+
+        def conj(c):
+            if isinstance(c, tuple) and c and c[0] == "&&":
+                return conj(c[1]) + conj(c[2])
+            return [c]
+        cs = conj(l["cond"])
+        bound = [c for c in cs if isinstance(c, tuple) and len(c) == 3 and ((c[0] == "<" and c[1] == j) or (c[0] == ">" and c[2] == j))]
+        other = [c for c in cs if c not in bound]
+        lim = (bound[0][2] if bound[0][0] == "<" else bound[0][1]) if len(bound) == 1 else None
+        ok = l["init"].get(k_) == 1 and sp.simplify(l["step"][k_] - j - 1) == 0 and lim is not None and str(lim) == "nthreads_" and all(str(c).startswith("DoThreaded(") for c in other)
+        why = "the worker-creation loop runs from %s while %s: it must create the workers 1 .. nthreads_-1, because the hand-over rings are indexed modulo nthreads_" % (
+            l["init"].get(k_), fo.cond_str(l["cond"]))
+    if ok:
+        id0 = [e for e in ids if lid_of(e) is None]
+        idj = [e for e in ids if lid_of(e) == lid_of(rest[0])]
+        ok = len(id0) == 1 and id0[0]["args"] == [0] and len(idj) == 1 and idj[0]["args"] == [j]
+        why = "worker ids are %s / %s, required 0 and the loop counter" % ([str(e["args"]) for e in id0], [str(e["args"]) for e in idj])
+    rep.check(ok, "R5.4", "ring-size", "workers 0 .. nthreads_-1 are created (ring modulus nthreads_ = number of workers and of ring mutexes)", "CsgApplication::Run: " + why, rn.loc(rest[0]["node"]) if rest else rn.loc(), sample=True)
